@@ -136,7 +136,13 @@ fn run_case(seed: u64, idx: u64) -> CaseOut {
             0 => {
                 let per_ms = 10u64.pow(rng.range(0, 9) as u32) * rng.range(1, 9); // steps per millisecond
                 let n = rng.range(1, 400) as usize;
-                let d = Drv::new(Some(u64::MAX));
+                let mut d = Drv::new(Some(u64::MAX));
+                // a bar may be told that it has been running for a while (with_elapsed): time that passed before
+                // it existed is not time without progress
+                if rng.chance(1, 4) {
+                    let secs = *rng.pick(&[1u64, 60, 3_600, 86_400]);
+                    d.pb = ProgressBar::with_draw_target(Some(u64::MAX), ProgressDrawTarget::hidden()).with_elapsed(std::time::Duration::from_secs(secs));
+                }
                 // optionally start far up the u64 range (f64 cannot represent neighbouring positions
                 // there): seek to the base, forget it, then progress steadily in small steps
                 let base: u64 = match rng.below(4) {
